@@ -27,4 +27,95 @@ theorem articulation_roundtrip (bp sd pd : ℝ) (hb : 0 < bp) (hs : 0 < sd) (hp 
 example : decodeArt (1/2) (encodeArt (3/4) (1/2) (1/8)) (3/4) = 1/8 :=
   articulation_roundtrip _ _ _ (by norm_num) (by norm_num) (by norm_num)
 
+/-- grace notes: `encode_articulation` stores `log2(bp / (bp·1)) = 0` whatever the performed duration … -/
+theorem articulation_grace_encoded (bp : ℝ) (hb : bp ≠ 0) : Real.logb 2 (bp / (bp * 1)) = 0 := by
+  rw [mul_one, div_self hb, Real.logb_one]
+
+/-- … and `decode_articulation` multiplies by the score duration 0: the performed duration of a grace
+    note is NOT reproduced (open finding F-C18-2); this is all that holds for notes without score duration -/
+theorem articulation_grace_partial (art bp : ℝ) : decodeArt 0 art bp = 0 := by
+  unfold decodeArt; ring
+
+/-- the negation of the round trip at the witness: a grace note played for 1/8 s -/
+example : decodeArt 0 (Real.logb 2 ((3/4 : ℝ) / (3/4 * 1))) (3/4) ≠ 1/8 := by
+  rw [articulation_grace_partial]; norm_num
+
+-- ------------------------------------------------------------------ tempo normalisations
+
+-- (`beat_period`: scale and rescale are the identity on the column — `C18.normalisation_inverse` with `.bp`)
+
+/-- `beat_period_log`: `2 ** log2(b) = b` -/
+theorem normalisation_inverse_log (b : ℝ) (hb : 0 < b) : (2 : ℝ) ^ Real.logb 2 b = b :=
+  Real.rpow_logb (by norm_num) (by norm_num) hb
+
+/-- `beat_period_ratio`: `(b / mean) * mean = b` -/
+theorem normalisation_inverse_ratio (b m : ℝ) (hm : m ≠ 0) : b / m * m = b := by
+  field_simp
+
+/-- `beat_period_ratio_log`: `2 ** log2(b / mean) * mean = b` -/
+theorem normalisation_inverse_ratio_log (b m : ℝ) (hb : 0 < b) (hm : 0 < m) :
+    (2 : ℝ) ^ Real.logb 2 (b / m) * m = b := by
+  rw [Real.rpow_logb (by norm_num) (by norm_num) (div_pos hb hm)]
+  field_simp
+
+noncomputable def meanR (l : List ℝ) : ℝ := l.sum / l.length
+/-- `np.std` -/
+noncomputable def stdR (l : List ℝ) : ℝ := Real.sqrt (meanR (l.map fun b => (b - meanR l) ^ 2))
+
+private theorem sum_nonneg' (l : List ℝ) (h : ∀ x ∈ l, 0 ≤ x) : 0 ≤ l.sum := by
+  induction l with
+  | nil => simp
+  | cons a as ih =>
+    rw [List.sum_cons]
+    have := h a (by simp)
+    have := ih (fun x hx => h x (by simp [hx]))
+    linarith
+
+private theorem sum_eq_zero' (l : List ℝ) (h : ∀ x ∈ l, 0 ≤ x) (h0 : l.sum = 0) : ∀ x ∈ l, x = 0 := by
+  induction l with
+  | nil => simp
+  | cons a as ih =>
+    rw [List.sum_cons] at h0
+    have h1 := h a (by simp)
+    have h2 := sum_nonneg' as (fun x hx => h x (by simp [hx]))
+    intro x hx
+    rcases List.mem_cons.mp hx with rfl | hx
+    · linarith
+    · exact ih (fun y hy => h y (by simp [hy])) (by linarith) x hx
+
+/-- `beat_period_standardized` (with the repair C18-7: zero deviation scales to 0):
+    `z * std + mean = b` for every beat period of the curve, constant curves included -/
+theorem normalisation_inverse_standardized (l : List ℝ) (b : ℝ) (hb : b ∈ l) :
+    (if stdR l = 0 then 0 else (b - meanR l) / stdR l) * stdR l + meanR l = b := by
+  by_cases h0 : stdR l = 0
+  · rw [if_pos h0, h0]
+    have hne : l ≠ [] := by intro h; simp [h] at hb
+    have hlen : (0 : ℝ) < l.length := by
+      have : 0 < l.length := List.length_pos_iff.mpr hne
+      exact_mod_cast this
+    have hnn : ∀ x ∈ l.map (fun b => (b - meanR l) ^ 2), 0 ≤ x := by
+      intro x hx
+      obtain ⟨c, _, rfl⟩ := List.mem_map.mp hx
+      exact sq_nonneg _
+    have hm0 : meanR (l.map fun b => (b - meanR l) ^ 2) = 0 := by
+      have hge : 0 ≤ meanR (l.map fun b => (b - meanR l) ^ 2) := by
+        unfold meanR
+        exact div_nonneg (sum_nonneg' _ hnn) (by simp)
+      unfold stdR at h0
+      exact (Real.sqrt_eq_zero hge).mp h0
+    have hs0 : (l.map fun b => (b - meanR l) ^ 2).sum = 0 := by
+      unfold meanR at hm0
+      rw [List.length_map] at hm0
+      rcases div_eq_zero_iff.mp hm0 with h | h
+      · exact h
+      · linarith
+    have := sum_eq_zero' _ hnn hs0 ((b - meanR l) ^ 2) (List.mem_map.mpr ⟨b, hb, rfl⟩)
+    have : b - meanR l = 0 := pow_eq_zero_iff (by norm_num) |>.mp this
+    linarith
+  · rw [if_neg h0]
+    field_simp
+    ring
+
+example : (1 : ℝ) ∈ [(1 : ℝ), 3] := by simp
+
 end C18
